@@ -132,6 +132,9 @@ func (e *Engine) canon(st *State, x ast.Expr) keyInfo {
 		out := base.merge(idx)
 		out.Key = base.Key + "[" + idx.Key + "]"
 		out.Heap = true
+		if e.P.constTable(x.X) != nil {
+			out.Heap = idx.Heap // a row of a table nothing writes
+		}
 		out.OK = true
 		return out
 	case *ast.CallExpr:
